@@ -3,7 +3,8 @@
    hypothesis `disjoint (locs r) (locs a)` is MEASURED per (operation, parameter class) on pyttb by
    tools/props/c05.py (np.shares_memory + cross-writes), not proved for pyttb's code. *)
 From Coq Require Import List Arith Bool.
-From PV Require Import Model.C05Store Model.C05View Model.C05View2 Model.C05Frame.
+From Coq Require Import ZArith.
+From PV Require Import Model.C05Store Model.C05View Model.C05View2 Model.C05Frame Model.C05ViewZ.
 Import ListNotations.
 
 Section C05.
@@ -470,4 +471,98 @@ Example C05_slice_example :
   cells ev = [0; 4; 2; 6] /\ cells od = [1; 5; 3; 7] /\ separatedb ev od = true /\ separatedb ev m = false /\
   read (run (hst (h0 1)) [(0, 0, 70); (0, 4, 71); (0, 2, 72); (0, 6, 73)]) od = read (hst (h0 1)) od /\
   read (run (hst (h0 1)) [(0, 0, 70); (0, 4, 71); (0, 2, 72); (0, 6, 73)]) ev = [Some 70; Some 71; Some 72; Some 73].
+Proof. vm_compute. repeat split; reflexivity. Qed.
+
+(* ---- wave 5: negative strides (Model/C05ViewZ.v: windows with offset and strides in Z) -------------------------------- *)
+(* the signed model extends the nat-stride model conservatively: same flags, same cells, same constructor results *)
+Theorem C05_z_embed_flags : forall a, z_fcontig (embed a) = is_fcontig a /\ z_ccontig (embed a) = is_ccontig a /\ zcells (embed a) = cells a.
+Proof. exact (fun a => conj (embed_fcontig a) (conj (embed_ccontig a) (zcells_embed a))). Qed.
+Print Assumptions C05_z_embed_flags.
+
+Theorem C05_z_tensor_init_embed : forall {V : Type} (h : @heap V) d s c,
+  z_tensor_init h (embed d) s c = (fst (tensor_init h d s c), embed (snd (tensor_init h d s c))).
+Proof. exact @z_tensor_init_embed. Qed.
+Print Assumptions C05_z_tensor_init_embed.
+
+Theorem C05_z_tenmat_init_embed : forall {V : Type} (h : @heap V) d c,
+  z_tenmat_init h (embed d) c = (fst (tenmat_init h d c), embed (snd (tenmat_init h d c))).
+Proof. exact @z_tenmat_init_embed. Qed.
+Print Assumptions C05_z_tenmat_init_embed.
+
+(* a[..., ::-1, ...] is a view: same buffer, exactly the cells of the base, the slice (size-1, size, -1); twice = identity *)
+Theorem C05_z_flip_view : forall a k,
+  zbuf (z_flip a k) = zbuf a /\ (forall x, In x (zaddrsC (z_flip a k)) <-> In x (zaddrsC a)).
+Proof. exact (fun a k => conj eq_refl (z_flip_cells a k)). Qed.
+Print Assumptions C05_z_flip_view.
+
+Theorem C05_z_flip_is_slice : forall a k, k < length (zshape a) -> length (zstr a) = length (zshape a) ->
+  z_flip a k = z_slice1 a k (Z.of_nat (nth k (zshape a) 0%nat) - 1)%Z (nth k (zshape a) 0%nat) (-1)%Z.
+Proof. exact z_flip_is_slice. Qed.
+Print Assumptions C05_z_flip_is_slice.
+
+Theorem C05_z_flip_involutive : forall a k, (forall i, nth i (zshape a) 1 <> 0) -> z_flip (z_flip a k) k = a.
+Proof. exact z_flip_involutive. Qed.
+Print Assumptions C05_z_flip_involutive.
+
+(* writes through the reversed view of a window land in cells of that window, and every cell of the window is shown by it *)
+Theorem C05_z_flip_subwin : forall a k,
+  zbuf (z_flip (embed a) k) = abuf a /\ incl (zcells (z_flip (embed a) k)) (cells a) /\ incl (cells a) (zcells (z_flip (embed a) k)).
+Proof. exact (fun a k => conj (proj1 (z_flip_subwin a k)) (conj (proj2 (z_flip_subwin a k)) (z_flip_covers a k))). Qed.
+Print Assumptions C05_z_flip_subwin.
+
+(* a window walked backwards on a mode of size <> 1 is neither F- nor C-contiguous; asfortranarray of it allocates *)
+Theorem C05_z_neg_not_contig : forall a, (exists k, nth k (zshape a) 1 <> 1 /\ (nth k (zstr a) 0 < 0)%Z) ->
+  z_fcontig a = false /\ z_ccontig a = false.
+Proof. exact neg_not_contig. Qed.
+Print Assumptions C05_z_neg_not_contig.
+
+Theorem C05_z_asfortran_neg : forall {V : Type} (h : @heap V) a, neg_mode a ->
+  ext h (fst (z_asfortran h a)) /\ hnext h <= zbuf (snd (z_asfortran h a)) < hnext (fst (z_asfortran h a)).
+Proof. exact @z_asfortran_neg. Qed.
+Print Assumptions C05_z_asfortran_neg.
+
+(* the constructors on a negative-stride argument, all heaps / windows / shapes *)
+Theorem C05_z_tensor_init_verdict : forall {V : Type} (h : @heap V) d s, zbuf d < hnext h ->
+  zaliases [d] [snd (z_tensor_init h d s true)] = false /\
+  (neg_mode d -> zaliases [d] [snd (z_tensor_init h d s false)] = false) /\
+  zaliases [d] [snd (z_tensor_init h d (zshape d) false)] = z_fcontig d.
+Proof.
+  exact (fun V h d s W => conj (z_tensor_init_copy_verdict h d s W)
+                         (conj (z_tensor_init_nocopy_neg_verdict h d s W) (z_tensor_init_nocopy_verdict h d W))).
+Qed.
+Print Assumptions C05_z_tensor_init_verdict.
+
+Theorem C05_z_tenmat_init_neg_verdict : forall {V : Type} (h : @heap V) d c, zbuf d < hnext h -> neg_mode d ->
+  zaliases [d] [snd (z_tenmat_init h d c)] = false.
+Proof. exact @z_tenmat_init_neg_verdict. Qed.
+Print Assumptions C05_z_tenmat_init_neg_verdict.
+
+Theorem C05_z_sptensor_init_verdict : forall {V : Type} (h : @heap V) s v,
+  zaliases [s; v] (snd (z_sptensor_init h s v false)) = true /\
+  (zbuf s < hnext h -> zbuf v < hnext h -> zaliases [s; v] (snd (z_sptensor_init h s v true)) = false).
+Proof. exact (fun V h s v => conj (z_sptensor_init_nocopy_verdict h s v) (z_sptensor_init_copy_verdict h s v)). Qed.
+Print Assumptions C05_z_sptensor_init_verdict.
+
+Theorem C05_z_ktensor_init_verdict : forall {V : Type} (h : @heap V) fms w, zbuf w < hnext h -> (forall a, In a fms -> zbuf a < hnext h) ->
+  zaliases (w :: fms) (snd (z_ktensor_init h fms w true)) = false /\
+  ((exists f, In f fms /\ neg_mode f) ->
+   zaliases fms (tl (snd (z_ktensor_init h fms w false))) = false /\
+   (neg_mode w -> zaliases (w :: fms) (snd (z_ktensor_init h fms w false)) = false)).
+Proof.
+  exact (fun V h fms w Ww Wf => conj (z_ktensor_init_copy_verdict h fms w Ww Wf) (z_ktensor_init_nocopy_neg_verdict h fms w Ww Wf)).
+Qed.
+Print Assumptions C05_z_ktensor_init_verdict.
+
+Theorem C05_z_khatrirao_single_verdict : forall {V : Type} (h : @heap V) A, zbuf A < hnext h ->
+  zaliases [A] [snd (z_khatrirao_single h A)] = false.
+Proof. exact @z_khatrirao_single_verdict. Qed.
+Print Assumptions C05_z_khatrirao_single_verdict.
+
+(* non-vacuity: a 2 x 3 C-ordered matrix and its row-reversed view M[::-1] (the harness' "negstride" operand layout) *)
+Example C05_negstride_example :
+  exMrev = mkZArr 0 3 [2; 3] [(-3)%Z; 1%Z] /\ zcells exMrev = [3; 4; 5; 0; 1; 2] /\ cells exM = [0; 1; 2; 3; 4; 5] /\
+  z_fcontig exMrev = false /\ z_ccontig exMrev = false /\ z_ccontig (embed exM) = true /\
+  zaliases [exMrev] [snd (z_tensor_init (hz0 1) exMrev [2; 3] false)] = false /\
+  zaliases [embed (v_transpose exM [1; 0])] [snd (z_tensor_init (hz0 1) (embed (v_transpose exM [1; 0])) [3; 2] false)] = true /\
+  hst (fst (z_copyF (hz0 1) exMrev)) 1 = [3; 0; 4; 1; 5; 2].
 Proof. vm_compute. repeat split; reflexivity. Qed.
